@@ -21,7 +21,9 @@ def TailOk (tail : List Step) (nPre : Nat) : Prop :=
     (cleanup (outSt (prefixRun k tail s))).tmp = false ∧
     ((cleanup (outSt (prefixRun k tail s))).dest = s.dest ∨ (cleanup (outSt (prefixRun k tail s))).dest = some s.acc) ∧
     (k ≤ nPre → (cleanup (outSt (prefixRun k tail s))).dest = s.dest) ∧
-    (((cleanup (outSt (prefixRun k tail s))).mdata ≠ s.mdata ∨ (cleanup (outSt (prefixRun k tail s))).info ≠ s.info) →
+    (((cleanup (outSt (prefixRun k tail s))).mdata ≠ s.mdata ∨ (cleanup (outSt (prefixRun k tail s))).info ≠ s.info ∨
+        (cleanup (outSt (prefixRun k tail s))).uploadRec ≠ s.uploadRec ∨
+        (cleanup (outSt (prefixRun k tail s))).partsGone ≠ s.partsGone) →
       (cleanup (outSt (prefixRun k tail s))).dest = some s.acc)
 
 theorem putTail_ok (c : Cfg) :
@@ -37,10 +39,78 @@ theorem uploadPartTail_ok (c : Cfg) : TailOk [.flush, .mkdirs c.mkdirsFails, .re
   rcases k with _ | _ | _ | _ | k <;> cases c.mkdirsFails <;> cases c.renameFails <;>
     simp [prefixRun, exec, cleanup, outSt, ho]
 
-theorem completeTail_ok (c : Cfg) : TailOk [.mkdirs c.mkdirsFails, .rename c.renameFails] 1 := by
+/-- the steps that follow the rename: they touch neither the destination nor a temporary file -/
+def PostStep : Step → Prop
+  | .moveMeta _ _ | .saveMeta _ | .dropMeta _ | .saveInfo _ | .dropPart | .consume => True
+  | _ => False
+
+theorem post_preserves {post : List Step} (hp : ∀ st ∈ post, PostStep st) :
+    ∀ (k : Nat) (s : St),
+      (outSt (prefixRun k post s)).dest = s.dest ∧ (outSt (prefixRun k post s)).tmp = s.tmp ∧
+      (outSt (prefixRun k post s)).owned = s.owned := by
+  induction post with
+  | nil => intro k s; cases k <;> simp [prefixRun, outSt]
+  | cons st r ih =>
+    intro k s
+    cases k with
+    | zero => simp [prefixRun, outSt]
+    | succ k =>
+      have hr : ∀ st ∈ r, PostStep st := fun x hx => hp x (List.mem_cons_of_mem _ hx)
+      have hst := hp st (by simp)
+      cases st <;> simp only [PostStep] at hst
+      case moveMeta has fails =>
+        cases has <;> cases fails <;> simp only [prefixRun, exec, Bool.not_false, Bool.not_true, Bool.false_eq_true, ↓reduceIte]
+        · exact ih hr k s
+        · exact ih hr k s
+        · have := ih hr k { s with mdata := .new }; simpa using this
+        · simp [outSt]
+      case saveMeta fails =>
+        cases fails <;> simp only [prefixRun, exec, Bool.false_eq_true, ↓reduceIte]
+        · have := ih hr k { s with mdata := .new }; simpa using this
+        · simp [outSt]
+      case dropMeta fails =>
+        cases fails <;> simp only [prefixRun, exec, Bool.false_eq_true, ↓reduceIte]
+        · have := ih hr k { s with mdata := .absent }; simpa using this
+        · simp [outSt]
+      case saveInfo fails =>
+        cases fails <;> simp only [prefixRun, exec, Bool.false_eq_true, ↓reduceIte]
+        · have := ih hr k { s with info := .new }; simpa using this
+        · simp [outSt]
+      case dropPart =>
+        simp only [prefixRun, exec]
+        have := ih hr k { s with partsGone := s.partsGone + 1 }; simpa using this
+      case consume =>
+        simp only [prefixRun, exec]
+        have := ih hr k { s with uploadRec := false }; simpa using this
+
+/-- `done()` followed by steps that leave destination and temporary file alone: whatever they are and however many -/
+theorem doneThenPost_ok (mf rf : Bool) {post : List Step} (hp : ∀ st ∈ post, PostStep st) :
+    TailOk (.mkdirs mf :: .rename rf :: post) 1 := by
   intro s k ho ht
-  rcases k with _ | _ | _ | k <;> cases c.mkdirsFails <;> cases c.renameFails <;>
-    simp [prefixRun, exec, cleanup, outSt, ho]
+  rcases k with _ | _ | k
+  · simp [prefixRun, outSt, cleanup, ho]
+  · cases mf <;> simp [prefixRun, exec, outSt, cleanup, ho]
+  · cases mf
+    · cases rf
+      · simp only [prefixRun, exec, Bool.false_eq_true, ↓reduceIte]
+        obtain ⟨h1, h2, h3⟩ := post_preserves hp k
+          { s with dirs := true, dest := some s.acc, tmp := false, owned := false }
+        simp only at h1 h2 h3
+        have hc : cleanup (outSt (prefixRun k post { s with dirs := true, dest := some s.acc, tmp := false, owned := false })) =
+            outSt (prefixRun k post { s with dirs := true, dest := some s.acc, tmp := false, owned := false }) := by
+          unfold cleanup; rw [h3]; rfl
+        rw [hc]
+        exact ⟨h2, .inr h1, fun hk => absurd hk (by omega), fun _ => h1⟩
+      · simp [prefixRun, exec, outSt, cleanup, ho]
+    · simp [prefixRun, exec, outSt, cleanup, ho]
+
+theorem completePost_post (c : Cfg) : ∀ st ∈ completePost c, PostStep st := by
+  intro st hst
+  simp only [completePost, List.mem_cons, List.mem_append, List.mem_map, List.mem_nil_iff, or_false] at hst
+  rcases hst with (rfl | ⟨_, _, rfl⟩) | rfl <;> trivial
+
+theorem completeTail_ok (c : Cfg) : TailOk (.mkdirs c.mkdirsFails :: .rename c.renameFails :: completePost c) 1 :=
+  doneThenPost_ok _ _ (completePost_post c)
 
 /-- the body frames, then a good tail: at every fault point the temporary file goes away and the destination is
     the previous content or previous `acc` ++ all body bytes; before the rename it is the previous content -/
@@ -52,7 +122,9 @@ theorem frames_then_tail {tail : List Step} {nPre : Nat} (ht : TailOk tail nPre)
           (cleanup (outSt (prefixRun k (frames.map .frame ++ tail) s))).dest = some (s.acc ++ all)) ∧
       (k ≤ frames.length + nPre → (cleanup (outSt (prefixRun k (frames.map .frame ++ tail) s))).dest = s.dest) ∧
       (((cleanup (outSt (prefixRun k (frames.map .frame ++ tail) s))).mdata ≠ s.mdata ∨
-          (cleanup (outSt (prefixRun k (frames.map .frame ++ tail) s))).info ≠ s.info) →
+          (cleanup (outSt (prefixRun k (frames.map .frame ++ tail) s))).info ≠ s.info ∨
+          (cleanup (outSt (prefixRun k (frames.map .frame ++ tail) s))).uploadRec ≠ s.uploadRec ∨
+          (cleanup (outSt (prefixRun k (frames.map .frame ++ tail) s))).partsGone ≠ s.partsGone) →
         ∃ all, allBytes frames = some all ∧
           (cleanup (outSt (prefixRun k (frames.map .frame ++ tail) s))).dest = some (s.acc ++ all)) := by
   induction frames with
@@ -83,40 +155,116 @@ theorem frames_then_tail {tail : List Step} {nPre : Nat} (ht : TailOk tail nPre)
           obtain ⟨all, ha, h5⟩ := h4 h
           exact ⟨b ++ all, by simp [allBytes, ha], by simpa [List.append_assoc] using h5⟩
 
-theorem parts_then_tail {tail : List Step} {nPre : Nat} (ht : TailOk tail nPre) (parts : List Part) :
+/-- the validation of `complete_multipart_upload` passes: every listed part exists and the size rule holds -/
+def validParts (parts : List Part) : Bool := parts.all Part.there && parts.all Part.fine
+
+theorem allParts_valid : ∀ (parts : List Part), (allParts parts).isSome = validParts parts := by
+  intro parts
+  induction parts with
+  | nil => rfl
+  | cons p r ih =>
+    cases p with
+    | missing => simp [allParts, validParts, Part.there]
+    | present b ok =>
+      cases ok with
+      | false => simp [allParts, validParts, Part.fine]
+      | true =>
+        simp only [allParts, Option.isSome_map, ih]
+        simp [validParts, Part.there, Part.fine]
+
+/-- the validation steps never change anything; at every fault position the state is the one it started in, or the
+    validation has passed and the rest of the program runs from that same state -/
+theorem probes_then (rest : List Step) (f : Bool) : ∀ (parts : List Part) (s : St) (k : Nat),
+    outSt (prefixRun k (parts.map .probe ++ .sizes f :: rest) s) = s ∨
+    ((parts.all Part.there && f) = true ∧ ∃ k', k = parts.length + 1 + k' ∧
+      prefixRun k (parts.map .probe ++ .sizes f :: rest) s = prefixRun k' rest s) := by
+  intro parts
+  induction parts with
+  | nil =>
+    intro s k
+    cases k with
+    | zero => left; simp [prefixRun, outSt]
+    | succ k =>
+      cases f with
+      | false => left; simp [prefixRun, exec, outSt]
+      | true => right; exact ⟨rfl, k, by simp only [List.length_nil]; omega, by simp [prefixRun, exec]⟩
+  | cons p r ih =>
+    intro s k
+    cases k with
+    | zero => left; simp [prefixRun, outSt]
+    | succ k =>
+      cases p with
+      | missing => left; simp [prefixRun, exec, outSt, Part.there]
+      | present b ok =>
+        simp only [List.map_cons, List.cons_append, prefixRun, exec, Part.there, ↓reduceIte]
+        rcases ih s k with h | ⟨h1, k', hk, h2⟩
+        · exact .inl h
+        · refine .inr ⟨by simpa [Part.there] using h1, k', by simp only [List.length_cons]; omega, h2⟩
+
+/-- the validation, run to its end: it passes and the rest runs from the same state, or the call fails with nothing changed -/
+theorem run_probes (rest : List Step) (f : Bool) : ∀ (parts : List Part) (s : St),
+    ∃ code, code ≠ Code.ok ∧ run (parts.map .probe ++ .sizes f :: rest) s =
+      if (parts.all Part.there && f) = true then run rest s else (code, cleanup s) := by
+  intro parts
+  induction parts with
+  | nil =>
+    intro s
+    cases f with
+    | false => exact ⟨.entityTooSmall, by decide, by simp [run, exec]⟩
+    | true => exact ⟨.entityTooSmall, by decide, by simp [run, exec]⟩
+  | cons p r ih =>
+    intro s
+    cases p with
+    | missing => exact ⟨.invalidPart, by decide, by simp [run, exec, Part.there]⟩
+    | present b ok =>
+      obtain ⟨code, hc, h⟩ := ih s
+      exact ⟨code, hc, by simpa [run, exec, Part.there] using h⟩
+
+/-- the copy loop over parts that passed the validation, then a good tail: at every fault point the temporary file goes
+    away and the destination is the previous content or previous `acc` ++ all parts; before the rename it is the previous
+    content; and nothing else (metadata, checksum record, upload record, part files) has changed unless the content is
+    in place -/
+theorem parts_then_tail {tail : List Step} {nPre : Nat} (ht : TailOk tail nPre) :
+    ∀ (parts : List Part) (all : Bytes), allParts parts = some all →
     ∀ (s : St) (k : Nat), s.owned = true → s.tmp = true →
       (cleanup (outSt (prefixRun k (parts.map .part ++ tail) s))).tmp = false ∧
       ((cleanup (outSt (prefixRun k (parts.map .part ++ tail) s))).dest = s.dest ∨
-        ∃ all, allParts parts = some all ∧
           (cleanup (outSt (prefixRun k (parts.map .part ++ tail) s))).dest = some (s.acc ++ all)) ∧
-      (k ≤ parts.length + nPre → (cleanup (outSt (prefixRun k (parts.map .part ++ tail) s))).dest = s.dest) := by
+      (k ≤ parts.length + nPre → (cleanup (outSt (prefixRun k (parts.map .part ++ tail) s))).dest = s.dest) ∧
+      (((cleanup (outSt (prefixRun k (parts.map .part ++ tail) s))).mdata ≠ s.mdata ∨
+          (cleanup (outSt (prefixRun k (parts.map .part ++ tail) s))).info ≠ s.info ∨
+          (cleanup (outSt (prefixRun k (parts.map .part ++ tail) s))).uploadRec ≠ s.uploadRec ∨
+          (cleanup (outSt (prefixRun k (parts.map .part ++ tail) s))).partsGone ≠ s.partsGone) →
+        (cleanup (outSt (prefixRun k (parts.map .part ++ tail) s))).dest = some (s.acc ++ all)) := by
+  intro parts
   induction parts with
   | nil =>
-    intro s k ho htm
-    obtain ⟨h1, h2, h3, _⟩ := ht s k ho htm
-    refine ⟨h1, ?_, by simpa using h3⟩
-    rcases h2 with h2 | h2
-    · exact .inl h2
-    · exact .inr ⟨[], rfl, by simpa using h2⟩
+    intro all ha s k ho htm
+    simp only [allParts, Option.some.injEq] at ha
+    subst ha
+    obtain ⟨h1, h2, h3, h4⟩ := ht s k ho htm
+    exact ⟨h1, by simpa using h2, by simpa using h3, by simpa using h4⟩
   | cons p r ih =>
-    intro s k ho htm
-    cases k with
-    | zero => simp [prefixRun, outSt, cleanup, ho]
-    | succ k =>
-      cases p with
-      | missing => simp [prefixRun, exec, outSt, cleanup, ho]
-      | present b sizeOk =>
-        cases sizeOk with
-        | false => simp [prefixRun, exec, outSt, cleanup, ho]
-        | true =>
-          simp only [List.map_cons, List.cons_append, prefixRun, exec, ↓reduceIte]
-          obtain ⟨h1, h2, h3⟩ := ih { s with acc := s.acc ++ b, partsGone := s.partsGone + 1 } k ho htm
-          refine ⟨h1, ?_, ?_⟩
-          · rcases h2 with h2 | ⟨all, ha, h2⟩
-            · exact .inl h2
-            · exact .inr ⟨b ++ all, by simp [allParts, ha], by simpa [List.append_assoc] using h2⟩
+    intro all ha s k ho htm
+    cases p with
+    | missing => simp [allParts] at ha
+    | present b ok =>
+      cases ok with
+      | false => simp [allParts] at ha
+      | true =>
+        simp only [allParts, Option.map_eq_some_iff] at ha
+        obtain ⟨all', ha', rfl⟩ := ha
+        cases k with
+        | zero => simp [prefixRun, outSt, cleanup, ho]
+        | succ k =>
+          simp only [List.map_cons, List.cons_append, prefixRun, exec]
+          obtain ⟨h1, h2, h3, h4⟩ := ih all' ha' { s with acc := s.acc ++ b } k ho htm
+          refine ⟨h1, ?_, ?_, ?_⟩
+          · simpa [List.append_assoc] using h2
           · intro hk
             exact h3 (by simp only [List.length_cons] at hk; omega)
+          · intro h
+            simpa [List.append_assoc] using h4 h
 
 /-- `create`, `adopt`, then the rest: every fault point except "between `create` and `adopt`" (k = 1) -/
 theorem create_adopt_then {rest : List Step} {s : St} (hs : s.tmp = false ∧ s.owned = false) (k : Nat) (hk : k ≠ 1) :
@@ -160,27 +308,60 @@ theorem run_frames (frames : List Frame) (tail : List Step) :
       rw [h]
       cases allBytes r <;> simp [List.append_assoc]
 
-/-- running the part loop of `complete_multipart_upload` -/
-theorem run_parts (parts : List Part) (tail : List Step) :
-    ∀ s : St, ∃ p a code, code ≠ Code.ok ∧ run (parts.map .part ++ tail) s =
-      match allParts parts with
-      | some all => run tail { s with acc := s.acc ++ all, partsGone := p }
-      | none => (code, cleanup { s with acc := a, partsGone := p }) := by
+/-- running the copy loop of `complete_multipart_upload` over parts that passed the validation -/
+theorem run_parts (tail : List Step) : ∀ (parts : List Part) (all : Bytes), allParts parts = some all →
+    ∀ s : St, run (parts.map .part ++ tail) s = run tail { s with acc := s.acc ++ all } := by
+  intro parts
   induction parts with
-  | nil => intro s; exact ⟨s.partsGone, [], .internalError, by decide, by simp [allParts]⟩
-  | cons pt r ih =>
-    intro s
-    cases pt with
-    | missing => exact ⟨s.partsGone, s.acc, .internalError, by decide, by simp [run, exec, allParts]⟩
-    | present b sizeOk =>
-      cases sizeOk with
-      | false => exact ⟨s.partsGone, s.acc ++ b, .entityTooSmall, by decide, by simp [run, exec, allParts]⟩
+  | nil =>
+    intro all ha s
+    simp only [allParts, Option.some.injEq] at ha
+    subst ha
+    simp
+  | cons p r ih =>
+    intro all ha s
+    cases p with
+    | missing => simp [allParts] at ha
+    | present b ok =>
+      cases ok with
+      | false => simp [allParts] at ha
       | true =>
-        obtain ⟨p, a, code, hc, h⟩ := ih { s with acc := s.acc ++ b, partsGone := s.partsGone + 1 }
-        refine ⟨p, a, code, hc, ?_⟩
-        simp only [List.map_cons, List.cons_append, run, exec, allParts, ↓reduceIte]
-        rw [h]
-        cases allParts r <;> simp [List.append_assoc]
+        simp only [allParts, Option.map_eq_some_iff] at ha
+        obtain ⟨all', ha', rfl⟩ := ha
+        simp only [List.map_cons, List.cons_append, run, exec]
+        rw [ih all' ha']
+        simp [List.append_assoc]
+
+/-- running the steps after the rename (no fault among them): the metadata is the upload's (if it has any), every listed
+    part file and the upload record are gone; destination and temporary file are not touched -/
+theorem run_completePost (c : Cfg) (hf : c.hasMeta = true → c.metaFails = false) (s : St) :
+    run (completePost c) s =
+      (.ok, cleanup { s with mdata := if c.hasMeta then .new else s.mdata, partsGone := s.partsGone + c.parts.length,
+                             uploadRec := false }) := by
+  have hdrop : ∀ (n : Nat) (s : St), run ((List.replicate n Step.dropPart) ++ [.consume]) s =
+      (.ok, cleanup { s with partsGone := s.partsGone + n, uploadRec := false }) := by
+    intro n
+    induction n with
+    | zero => intro s; simp [run, exec]
+    | succ n ih =>
+      intro s
+      simp only [List.replicate_succ, List.cons_append, run, exec]
+      rw [ih]
+      simp [Nat.add_assoc, Nat.add_comm 1 n]
+  have hmap : (c.parts.map fun _ => Step.dropPart) = List.replicate c.parts.length Step.dropPart :=
+    List.map_const' ..
+  unfold completePost
+  rw [hmap, List.cons_append]
+  cases hm : c.hasMeta with
+  | false => simp only [run, exec, Bool.not_false, ↓reduceIte]; rw [hdrop]; simp
+  | true =>
+    rw [hf hm]
+    simp only [run, exec, Bool.not_true, Bool.false_eq_true, ↓reduceIte]
+    rw [hdrop]
+
+theorem completeProg_eq (c : Cfg) :
+    completeProg c = c.parts.map .probe ++ .sizes (c.parts.all Part.fine) :: .create :: .adopt ::
+      (c.parts.map .part ++ .mkdirs c.mkdirsFails :: .rename c.renameFails :: completePost c) := rfl
 
 theorem putObjectProg_eq (c : Cfg) :
     putObjectProg c = .create :: .adopt :: (c.frames.map .frame ++
